@@ -41,18 +41,24 @@ variable [Add R] [Sub R] [Mul R] [Neg R] [Div R] [RealLike R] [Add K] [Mul K] [Z
 /-- `exp(-2 pi i t / n)` for an integer `t` -/
 def rootPow (n t : Int) : K := CxLike.expI (-(RealLike.twoPi * RealLike.ofInt t / RealLike.ofInt n) : R)
 
-/-- contract of `np.fft.fft2(x, norm='ortho')`: unitary DFT with both origins at index 0 -/
+/-- contract of `np.fft.fft2(x, norm=…)`: DFT with both origins at index 0, scaled by `1` (backward, code 0), `1/sqrt N`
+(ortho, code 1) or `1/N` (forward, code 2) -/
+def fft2Scale (norm : Int) (n : Int) : R :=
+  if norm = 1 then RealLike.ofInt 1 / RealLike.sqrt (RealLike.ofInt n)
+  else if norm = 2 then RealLike.ofInt 1 / RealLike.ofInt n else RealLike.ofInt 1
+
 def fft2Ortho (x : Arr K) : Arr K :=
   { x with get := fun k l =>
       (sumRange x.s1.toNat fun b =>
         (sumRange x.s0.toNat fun a => (rootPow (R := R) x.s0 (a * k) : K) * x.get a b) * rootPow (R := R) x.s1 (b * l))
-      * CxLike.ofReal (RealLike.ofInt 1 / RealLike.sqrt (RealLike.ofInt (x.s0 * x.s1)) : R) }
+      * CxLike.ofReal (fft2Scale (R := R) Gen.fft2Norm (x.s0 * x.s1)) }
 
-/-- `lentil.propagate._fft2(x) = fftshift(fft2(ifftshift(x), norm='ortho'))` -/
+/-- `lentil.propagate._fft2(x)`: the composition read from the source (`Gen.fft2InnerIdx`, `Gen.fft2OuterIdx`, `Gen.fft2Norm`):
+today `fftshift(fft2(ifftshift(x), norm='ortho'))` -/
 def fft2c (x : Arr K) : Arr K :=
-  let xs : Arr K := { x with get := fun i j => x.get (npIfftshiftIdx x.s0 i) (npIfftshiftIdx x.s1 j) }
+  let xs : Arr K := { x with get := fun i j => x.get (Gen.fft2InnerIdx x.s0 i) (Gen.fft2InnerIdx x.s1 j) }
   let F := fft2Ortho (R := R) xs
-  { F with get := fun i j => F.get (npFftshiftIdx x.s0 i) (npFftshiftIdx x.s1 j) }
+  { F with get := fun i j => F.get (Gen.fft2OuterIdx x.s0 i) (Gen.fft2OuterIdx x.s1 j) }
 end fft
 
 /-- index `(i, j)` lies in the slice region `[r0:r1, c0:c1]` -/
